@@ -404,6 +404,192 @@ def run_pdf(ctx: C.Ctx, batch: Batch) -> None:
             batch.meta.append((case, [], full, weak))
 
 
+# --------------------------------------------------------------------------- figures through the real device
+
+def gen_form_doc(rng):
+    """A one-page document with a DAG of form XObjects: forms that draw nothing (empty stream, only
+    graphics-state operators, only invocations of other empty forms), forms with text / shapes, forms invoked
+    twice, nesting up to 4.  Returns (pdf bytes, expected canonical tree of the page)."""
+    from harness import pdfwriter as W
+    font = {"Type": "Font", "Subtype": "Type1", "BaseFont": "VerifSans", "FirstChar": 32, "LastChar": 126,
+            "Widths": [500] * 95, "FontDescriptor": W.Ref(4), "Encoding": "WinAnsiEncoding"}
+    fd = {"Type": "FontDescriptor", "FontName": "VerifSans", "Flags": 32, "FontBBox": [0, -250, 1000, 750],
+          "ItalicAngle": 0, "Ascent": 750, "Descent": -250, "CapHeight": 700, "StemV": 80}
+    nforms = rng.randint(1, 5)
+    kinds = ["empty", "gs", "text", "rect", "do", "do", "empty-do"]
+
+    def pieces(i, depth_left):
+        # form i may only invoke forms with a larger number: no cycles
+        out = []
+        shape = rng.random()
+        n = 0 if shape < 0.25 else rng.randint(1, 4)
+        for _ in range(n):
+            k = rng.choice(kinds)
+            if k in ("do", "empty-do") and i < nforms:
+                out.append(("do", rng.randint(i + 1, nforms)))
+            elif k == "text":
+                out.append(("text", rng.choice([b"a", b"ab c", b"Hello", b" "]), rng.randint(10, 300), rng.randint(10, 600)))
+            elif k == "rect":
+                out.append(("rect", rng.randint(5, 200), rng.randint(5, 200)))
+            elif k == "gs":
+                out.append(("gs",))
+        return out
+    defs = {i: pieces(i, 4) for i in range(1, nforms + 1)}
+    if rng.random() < 0.5:
+        defs[nforms] = [] if rng.random() < 0.6 else [("gs",)]      # a leaf that draws nothing
+    page = pieces(0, 4)
+    if not any(p[0] == "do" for p in page):
+        page.append(("do", rng.randint(1, nforms)))
+
+    def content(ps) -> bytes:
+        ops = []
+        for p_ in ps:
+            if p_[0] == "do":
+                ops.append(b"/Fm%d Do" % p_[1])
+            elif p_[0] == "text":
+                ops.append(b"BT /F1 8 Tf %d %d Td " % (p_[2], p_[3]) + W.ser_string(p_[1]) + b" Tj ET")
+            elif p_[0] == "rect":
+                # one single-subpath shape: a rectangle, a straight line or a curve
+                ops.append([b"%d %d 20 10 re S", b"%d %d m 300 310 l S", b"%d %d m 10 20 30 40 50 60 c S"][(p_[1] + p_[2]) % 3]
+                           % (p_[1], p_[2]))
+            elif p_[0] == "gs":
+                ops.append(b"q 1 0 0 1 3 4 cm 2 w 0.5 g Q")
+        return b"\n".join(ops)
+
+    def canon(ps, depth=0):
+        nch = sum(len(p_[1]) for p_ in ps if p_[0] == "text")
+        nsh = sum(1 for p_ in ps if p_[0] == "rect")
+        figs = [["Fm%d" % p_[1], canon(defs[p_[1]], depth + 1)] for p_ in ps if p_[0] == "do"]
+        return [nch, nsh, figs]
+    objs = {3: font, 4: fd}
+    for i, ps in defs.items():
+        res = {"Font": {"F1": W.Ref(3)}}
+        kids = sorted({p_[1] for p_ in ps if p_[0] == "do"})
+        if kids:
+            res["XObject"] = {"Fm%d" % j: W.Ref(20 + j) for j in kids}
+        d = {"Type": "XObject", "Subtype": "Form", "BBox": [0, 0, 400, 700], "Resources": res}
+        if rng.random() < 0.5:
+            d["Matrix"] = [1, 0, 0, 1, rng.randint(0, 40), rng.randint(0, 40)]
+        objs[20 + i] = W.Stream(d, content(ps))
+    resources = {"Font": {"F1": W.Ref(3)}, "XObject": {"Fm%d" % j: W.Ref(20 + j) for j in range(1, nforms + 1)}}
+    data = W.simple_doc(content(page), resources=resources, extra_objs=objs)
+    return data, canon(page)
+
+
+def canon_container(cont):
+    """[glyphs, shapes, [[figure name, canon], ...]] of a layout container of the implementation: glyphs and
+    shapes anywhere below it but not inside a nested figure; figures in order."""
+    from pdfminer.layout import LTChar, LTContainer, LTCurve, LTFigure, LTImage
+    nch = nsh = 0
+    figs = []
+
+    def walk(o):
+        nonlocal nch, nsh
+        if isinstance(o, LTFigure):
+            figs.append([o.name, canon_container(o)])
+        elif isinstance(o, LTChar):
+            nch += 1
+        elif isinstance(o, (LTCurve, LTImage)):
+            nsh += 1
+        elif isinstance(o, LTContainer):
+            for x in o:
+                walk(x)
+    for x in cont:
+        walk(x)
+    return [nch, nsh, figs]
+
+
+def check_form_doc(ctx: C.Ctx, data: bytes, expected, la, from_replay=False) -> None:
+    """The page tree delivered by the real device (PDFPageAggregator behind PDFPageInterpreter, with and
+    without layout analysis, and through extract_pages) holds every figure, glyph and shape exactly once."""
+    import io
+    from pdfminer.converter import PDFPageAggregator
+    from pdfminer.high_level import extract_pages
+    from pdfminer.pdfinterp import PDFPageInterpreter, PDFResourceManager
+    from pdfminer.pdfpage import PDFPage
+    modes = [("raw", None), ("analysed", la), ("extract_pages", la)]
+    for mode, lap in modes:
+        try:
+            if mode == "extract_pages":
+                page = next(iter(extract_pages(io.BytesIO(data), laparams=L.make_laparams(lap, "float"))))
+            else:
+                rm = PDFResourceManager()
+                dev = PDFPageAggregator(rm, laparams=None if lap is None else L.make_laparams(lap, "float"))
+                PDFPageInterpreter(rm, dev).process_page(next(PDFPage.get_pages(io.BytesIO(data))))
+                page = dev.get_result()
+            got = canon_container(page)
+        except Exception as e:  # noqa: BLE001
+            got = "EXC:%s: %s" % (type(e).__name__, str(e)[:80])
+        ctx.branch("forms:" + mode)
+        if got != expected:
+            ctx.fail(C.Failure("layout analysis breaks C08: conserve-figures", {"pdf_hex": data.hex(), "la": la,
+                                                                             "expected_tree": expected, "mode": mode},
+                               expected, got, {"check": "conserve-figures", "mode": mode, "pdf": True,
+                                               "boxes_flow_none": bool(lap) and lap.get("boxes_flow") is None, "far": False}))
+            return
+
+
+def count_empty(tree) -> int:
+    return sum((1 if f[1] == [0, 0, []] else 0) + count_empty(f[1]) for f in tree[2])
+
+
+def run_forms(ctx: C.Ctx) -> None:
+    rng = ctx.rng
+    for i in range(ctx.n(60, 1500)):
+        if not ctx.time_left():
+            break
+        data, expected = gen_form_doc(rng)
+        la = L.gen_la(rng, wild=False)
+        ne = count_empty(expected)
+        ctx.case(("forms", data), True, sample={"forms": expected}, branch="gen:forms")
+        if ne:
+            ctx.branch("forms:with-empty-figure")
+        if any(f[1][0] == 0 and f[1][1] == 0 and f[1][2] for f in expected[2]):
+            ctx.branch("forms:figure-of-only-figures")
+        check_form_doc(ctx, data, expected, la)
+    # the same at device level: begin_figure / end_figure in arbitrary nesting, nothing drawn
+    from pdfminer.converter import PDFPageAggregator
+    from pdfminer.pdfinterp import PDFResourceManager
+    from pdfminer.pdfpage import PDFPage
+    for i in range(ctx.n(30, 500)):
+        class P:                       # what begin_page reads of a PDFPage
+            mediabox = (0, 0, 612, 792)
+            rotate = 0
+            pageid = 1
+        dev = PDFPageAggregator(PDFResourceManager(), laparams=None if i % 2 else L.make_laparams(L.gen_la(rng, wild=False), "float"))
+        ident = (1, 0, 0, 1, 0, 0)
+        seq = []
+
+        def tree(depth):
+            out = []
+            for _ in range(rng.randint(0, 3 if depth < 3 else 0)):
+                name = "X%d" % rng.randint(1, 9)
+                seq.append(("b", name))
+                sub = tree(depth + 1)
+                seq.append(("e", name))
+                out.append([name, [0, 0, sub]])
+            return out
+        expected = [0, 0, tree(0)]
+        try:
+            dev.set_ctm(ident)             # what PDFPageInterpreter.init_state does before begin_page
+            dev.begin_page(P(), ident)
+            for op, name in seq:
+                if op == "b":
+                    dev.begin_figure(name, (0, 0, 100, 100), ident)
+                else:
+                    dev.end_figure(name)
+            dev.end_page(P())
+            got = canon_container(dev.get_result())
+        except Exception as e:  # noqa: BLE001
+            got = "EXC:%s: %s" % (type(e).__name__, str(e)[:80])
+        ctx.case(("devseq", tuple(seq)), bool(seq), branch="gen:device-figures")
+        if got != expected:
+            ctx.fail(C.Failure("layout analysis breaks C08: conserve-figures", {"device_calls": seq, "expected_tree": expected},
+                               expected, got, {"check": "conserve-figures", "mode": "device", "pdf": False,
+                                               "boxes_flow_none": False, "far": False}))
+            break
+
+
 # --------------------------------------------------------------------------- str.isspace table of the model
 
 def run_isspace(ctx: C.Ctx) -> None:
@@ -432,6 +618,13 @@ def run_corpus(ctx: C.Ctx, batch: Batch) -> None:
 def replay(ctx: C.Ctx, doc) -> None:
     batch = Batch(ctx)
     inp = doc.get("input", {})
+    if isinstance(inp, dict) and "pdf_hex" in inp:
+        ctx.case(("replay-forms", inp["pdf_hex"][:64]), True, branch="replay:forms")
+        check_form_doc(ctx, bytes.fromhex(inp["pdf_hex"]), inp["expected_tree"], inp["la"])
+        return
+    if isinstance(inp, dict) and "device_calls" in inp:
+        ctx.notes.append("device-call replays are re-generated by the run, not replayed from the file")
+        return
     if isinstance(inp, dict) and "case" in inp:
         inp = inp["case"]
     eval_case(ctx, inp, batch, "replay")
@@ -468,5 +661,6 @@ def run(ctx: C.Ctx) -> None:
         if len(batch.lines) >= 200:
             batch.flush()
     run_pdf(ctx, batch)
+    run_forms(ctx)
     batch.flush()
     finish(ctx)
